@@ -145,10 +145,26 @@ func forge(stream []byte, cfg gen.Config, ops []ForgeOp) (out []byte, hdrTouched
 					lenRatio = max(lenRatio, float64(v)/8/float64(max(st.Hdr.BlockSize, int(cfg.BlockSize))))
 				}
 			case "prelen":
-				b.Put(k.PreLenStart, k.PreLenEnd-k.PreLenStart, op.Val)
+				v := op.Val
+				if op.Field == "rel" {
+					// relative to the buffer a decoding task uses for a block: D = B + max(512, B/16); Off is per mille of D
+					bs := max(st.Hdr.BlockSize, int(cfg.BlockSize))
+					d := bs + max(512, bs/16)
+					v = uint64(d * op.Off / 1000)
+				}
+				b.Put(k.PreLenStart, k.PreLenEnd-k.PreLenStart, v)
 			case "mode":
 				b.Put(k.LenPrefixEnd, 8, op.Val)
 			case "skip":
+				if op.Field == "all" {
+					// every stage flagged as skipped (both encodings of the flags)
+					if k.HasSkipByte {
+						b.Put(k.LenPrefixEnd+8, 8, 0xFF)
+					} else {
+						b.Put(k.LenPrefixEnd+4, 4, 0xF)
+					}
+					continue
+				}
 				if k.HasSkipByte {
 					b.Put(k.LenPrefixEnd+8, 8, op.Val)
 				} else {
@@ -451,7 +467,12 @@ func c03Eval(r *vrt.Run, sb *Sandbox, c C03Case, maxDeclared int) c03Out {
 
 func drawForgeOp(t *rapid.T, nblocks int) ForgeOp {
 	val := rapid.OneOf(rapid.SampledFrom(hostile), rapid.Uint64()).Draw(t, "val")
-	switch rapid.IntRange(0, 15).Draw(t, "opk") {
+	switch rapid.IntRange(0, 17).Draw(t, "opk") {
+	case 16:
+		return ForgeOp{Kind: "prelen", Field: "rel", Block: rapid.IntRange(0, nblocks).Draw(t, "blk"),
+			Off: rapid.OneOf(rapid.IntRange(900, 1600), rapid.SampledFrom([]int{999, 1000, 1001, 1499, 1500, 1501})).Draw(t, "permille")}
+	case 17:
+		return ForgeOp{Kind: "skip", Field: "all", Block: rapid.IntRange(0, nblocks).Draw(t, "blk")}
 	case 0:
 		return ForgeOp{Kind: "hdr", Field: rapid.SampledFrom([]string{"version", "ck", "entropy", "transforms", "blocksize", "size", "checksum"}).Draw(t, "field"), Val: val,
 			KeepCk: rapid.IntRange(0, 5).Draw(t, "keepck") == 0}
